@@ -2,10 +2,20 @@ package yqlib
 
 import (
 	"container/list"
+	"fmt"
+	"sync/atomic"
 )
+
+// how many eval operators are running inside one another
+var evalNesting int32
 
 func evalOperator(d *dataTreeNavigator, context Context, expressionNode *ExpressionNode) (Context, error) {
 	log.Debugf("Eval")
+	if atomic.AddInt32(&evalNesting, 1) > 100 {
+		atomic.AddInt32(&evalNesting, -1)
+		return Context{}, fmt.Errorf("eval is nested more than 100 levels deep (does the evaluated expression evaluate itself?)")
+	}
+	defer atomic.AddInt32(&evalNesting, -1)
 	pathExpStrResults, err := d.GetMatchingNodes(context.ReadOnlyClone(), expressionNode.RHS)
 	if err != nil {
 		return Context{}, err
